@@ -1,6 +1,7 @@
 package simcheck
 
 import (
+	"runtime"
 	"encoding/binary"
 	"encoding/json"
 	"fmt"
@@ -108,6 +109,8 @@ type workerOut struct {
 	Exhausted   bool              `json:"exhausted"` // all indexes of the range were executed
 	HashFile    string            `json:"hash_file"`
 	LastIndex   int               `json:"last_index"`
+	Recycle     bool              `json:"recycle,omitempty"` // stopped because the process grew past SIM_RECYCLE_MB; the driver continues at NextIndex in a fresh process
+	NextIndex   int               `json:"next_index,omitempty"`
 	Real        []string          `json:"real"`
 	Stub        []string          `json:"stub"`
 	Rule        string            `json:"rule"`
@@ -178,7 +181,7 @@ func workerRun(t *testing.T) {
 	}
 	defer finish()
 
-	if worker == 0 && p.Sweep != nil {
+	if worker == 0 && p.Sweep != nil && os.Getenv("SIM_SKIP_SWEEP") == "" {
 		env := &Env{T: t, ch: &chooser{mode: modeGen, rng: NewRand(vseed), switchDen: 1}, Tier: tier, Counters: map[string]int{}, stats: &runStats{}, KnownHit: map[string]string{}, known: knownLookup(p.ID)}
 		func() {
 			defer func() {
@@ -208,10 +211,21 @@ func workerRun(t *testing.T) {
 		}
 	}
 
+	// goroutines a run leaves blocked in real channel operations (with everything they
+	// reference) cannot be released; the process is recycled before that adds up
+	recycleMB := uint64(envInt("SIM_RECYCLE_MB", 1500))
 	i := from
-	for ; i < to; i += stride {
+	for n := 0; i < to; i, n = i+stride, n+1 {
 		if time.Since(start) > budget {
 			break
+		}
+		if n%64 == 63 {
+			var ms runtime.MemStats
+			runtime.ReadMemStats(&ms)
+			if ms.Sys>>20 > recycleMB {
+				out.Recycle, out.NextIndex = true, i
+				return
+			}
 		}
 		seed := RunSeed(vseed, id, i)
 		gr := NewRand(seed)
